@@ -21,6 +21,8 @@ def fold(run, results, prefix):
             label = "%s fault at %s of %s" % ("persistent" if r["sticky"] else "one-off", r["site"][0], r["site"][1])
             run.reach[label] += 1
             run.reach["faulted call -> " + ("success" if r["res"] == "ok" else "error")] += 1
+            for o in r.get("observations", []):
+                run.reach["observation: " + o] += 1
             run.case((r["roles"], r["site"], r["sticky"], r["res"] == "ok"),
                      dict(call=r["call"], fault=label, errno=r["err"], outcome=r["res"]))
             mine = [b for b in r["bad"] if b[0].startswith(prefix)]
